@@ -9,9 +9,11 @@ before or after any step.  `FSInv` is the invariant of the directory:
 (D) a data file `h-d`, `h` the hash of an offered content `c`, is shorter than `c` or equal to `c`;
 (I) an index file is empty or a whole entry `(H c, |c|)` of an offered content.
 
-`torn_then_crash_witness` (a short index write FOLLOWED BY death before the code's `Remove`: two faults in
-one operation, outside the property's fault model) is a proved NEGATIVE result: `FaultStep` admits one
-fault per Put, and with two the invariant is lost.  The harness never injects that combination.
+`torn_then_crash_witness` / `torn_then_crash_full_witness` (a short index write FOLLOWED BY death before
+the code's `Remove`: two faults in one operation, outside the property's fault model) are proved NEGATIVE
+results: `FaultStep` admits one fault per Put; with two the invariant is lost, and after a further
+interrupted Put `GetFile` names a file of the reported size with wrong bytes.  The harness never injects
+that combination.  Histories (`Hist`) include removals of arbitrary files by Trim.
 
 Hypotheses (`Hyps`): no other byte string has the hash of an offered content; the index entry of an
 offered content has the fixed length and parses back (C05's codec theorems).
@@ -107,15 +109,16 @@ example : ∃ fs' r nx, tstep toyP 5 emptyFS 0 (.getFile 1) .gOpen .none 0 = som
     LocalGet toyP toyOffered (Op.getFile 1).id emptyFS .gOpen :=
   ⟨_, _, _, rfl, emptyFS_inv⟩
 
-/-- **Any history** of Puts and lookups from an undamaged cache, each operation run by a process that
+/-- **Any history** of Puts, lookups and removals of files by Trim from an undamaged cache, each operation run by a process that
 is hit by at most one fault (a failing call, a short write, death before or after any call; the source
 reader of each Put arbitrary on its second pass), **ends in a directory satisfying the invariant**. -/
 theorem reachable_inv (hy : Hyps P offered) {fs : FS Id Hsh} (h : Hist P offered fs) : FSInv P offered fs := by
   induction h with
   | init h0 => exact h0
   | op _ hoffers hex ih => exact opExec_inv hy hoffers ih hex
+  | trim q _ ih => exact inv_unlink (ih.exc _)
 
-example : Hist toyP toyOffered emptyFS := .init emptyFS_inv
+example : Hist toyP toyOffered (emptyFS.remove (.index 1)) := .trim _ (.init emptyFS_inv)
 
 /-- **Under the invariant lookups are safe**: a `GetFile` that succeeds names a file holding exactly the
 content `c` with `OutputID = H c` and `Size = |c|`; a `GetBytes` that succeeds returns bytes whose hash
@@ -248,5 +251,66 @@ theorem torn_then_crash_witness :
         simp [toyP, toyEnc, putOut, Src.size, tornSrc, writeAt] at h1
 
 example : ∃ fs1 r nx, tstep toyP 5 tornFS 0 (.put 1 tornSrc) (.iWrite 0) (.short 1) 0 = some (fs1, r, nx) := ⟨_, _, _, rfl⟩
+
+/-- id 1 is stored with the 1-byte content `[7]` (index entry present; its output has been trimmed), a
+Put(1, [8, 9, 10]) by process 0 has copied its output and has the index file open. -/
+def tornFS2 : FS Nat Bytes :=
+  { names := fun p => if p = .index 1 then some 0 else none,
+    inodes := fun i => if i = 0 then some ⟨.index 1, toyEnc 1 [7] 1 0⟩ else none,
+    nextIno := 1, fds := fun fd => if fd = 0 then some ⟨0, 0, 0⟩ else none, nextFd := 1 }
+
+def bigSrc : Src := ⟨true, [8, 9, 10], true, [8, 9, 10]⟩
+
+set_option maxRecDepth 8000 in
+/-- **the whole story of the double fault** (outside the property's fault model): the index write of
+Put(1, [8,9,10]) is short (1 byte) AND the process dies before the code's `Remove`; the index file of id 1
+now reads "output of [8,9,10], size 1".  The output of [8,9,10] is not there (Trim removed it, or it was
+never complete).  A later Put of [8,9,10] (by another process, for id 2) is interrupted after the first
+byte of its output.  A `GetFile(1)` by a fresh process then SUCCEEDS and names a file of the reported size
+(1) that does not hold the bytes of the reported output: the statement of C12 fails — with two faults in
+one operation. -/
+theorem torn_then_crash_full_witness :
+    ∃ fs1 r1 nx1,
+      -- the short index write, then death
+      tstep toyP 5 tornFS2 0 (.put 1 bigSrc) (.iWrite 0) (.short 1) 0 = some (fs1, r1, nx1) ∧
+      ∃ fs2,
+      -- a further Put of the same content, interrupted after its first byte
+      OpExec toyP 6 1 (.put 2 bigSrc) (fs1.closeProc 0) fs2 .crashed ∧
+      ∃ fs3 e d,
+      -- a lookup in a fresh process
+      OpExec toyP 7 2 (.getFile 1) fs2 fs3 (.ret (.file e (some d))) ∧
+      d.length = e.size ∧ toyP.H d ≠ e.out := by
+  refine ⟨_, _, _, rfl, ?_⟩
+  apply Exists.intro
+  apply And.intro
+  · show OpRun toyP 6 1 (.put 2 bigSrc) _ .pStat false _ .crashed
+    apply OpRun.step (fault := .none) (n := 0) (FaultStep.none false)
+    · rfl
+    apply OpRun.step (fault := .none) (n := 0) (FaultStep.none false)
+    · rfl
+    apply OpRun.crashAfter (n := 1)
+    rfl
+  apply Exists.intro
+  apply Exists.intro
+  apply Exists.intro
+  apply And.intro
+  · show OpRun toyP 7 2 (.getFile 1) _ .gOpen false _ _
+    apply OpRun.step (fault := .none) (n := 0) (FaultStep.none false)
+    · rfl
+    apply OpRun.step (fault := .none) (n := 0) (FaultStep.none false)
+    · rfl
+    apply OpRun.step (fault := .none) (n := 0) (FaultStep.none false)
+    · rfl
+    apply OpRun.step (fault := .none) (n := 0) (FaultStep.none false)
+    · rfl
+    apply OpRun.step (fault := .none) (n := 0) (FaultStep.none false)
+    · rfl
+    apply OpRun.step (fault := .none) (n := 0) (FaultStep.none false)
+    · rfl
+    apply OpRun.done (fault := .none) (n := 0) (FaultStep.none false)
+    rfl
+  exact ⟨rfl, by decide⟩
+
+example : ∃ fs1 r nx, tstep toyP 5 tornFS2 0 (.put 1 bigSrc) (.iWrite 0) (.short 1) 0 = some (fs1, r, nx) := ⟨_, _, _, rfl⟩
 
 end GIV.C12
